@@ -98,6 +98,17 @@ CLAIMED = {
         'Known finding: cum_deaths lag (pinned in tests/baseline.json, not repaired).',
    technique='Coq proofs about cumulative series / scaling over generated slice bounds + in-Coq replay of recorded series + recount probe and scaled twins',
    design='5 C15'),
+ 'C07': dict(
+   text='Coq theorems: rational grids start at the start, are uniformly spaced and strictly increasing, have one point per step and end at the last point not after stop; '
+        'Gregorian civil<->day-count round trip and day-by-day monotonicity of the year representation (finite sweeps with the bounds stated in the theorems); calendar grids '
+        'have exact whole-day spacing from an exact start and never pass stop; date and elapsed-time representations agree for whole-day steps (forced hypothesis) and drift '
+        'otherwise (refutation witness); a module on the sim timeline sits on the sim axis. Every vector of real ss.Time objects (numeric, unitless, calendar day/week/year) and '
+        'the three make_abstvec branches are compared with the model in Coq; the clauses of the property are evaluated on the real objects.',
+   note='Trusted: Coq kernel (vm_compute sweeps over 1970-2070 / 1990-2030), translator (unit table, rounding time_ratio), harness. The model computes on the decimal literals the user wrote; '
+        'binary64 noise is tolerated at 1e-9 (vectors) and one day (dates derived from a numeric year vector at half-day boundaries). dateutil month stepping is not modelled '
+        '(implementation-side clauses only). Known findings: float floor of the grid length, fractional-step date drift, month-end drift.',
+   technique='Coq proofs about rational/calendar grids (incl. finite sweeps lifted by forallb_forall) + in-Coq differential evaluation of ss.Time',
+   design='5 C07'),
 }
 
 checks = []
